@@ -422,6 +422,12 @@ void Avtp_Vss_SetVssPath(Avtp_Vss_t* pdu, VssPath_t* val)
 
 void Avtp_Vss_SetVssData(Avtp_Vss_t* pdu, VssData_t* val) {
 
+    // Reserved addressing modes have no defined path size: write nothing
+    Vss_AddrMode_t addr_mode = Avtp_Vss_GetAddrMode(pdu);
+    if (addr_mode != VSS_STATIC_ID_MODE && addr_mode != VSS_INTEROP_MODE) {
+        return;
+    }
+
     // Get a pointer to the start of the VSS data
     uint8_t* vss_data_ptr = (uint8_t*) pdu + AVTP_VSS_FIXED_HEADER_LEN +
                                 Avtp_Vss_CalcVssPathLength(pdu);
